@@ -5,7 +5,10 @@ use crate::cache::cache::{
 use crate::cache::error::{CacheError, Result};
 use crate::server::timer;
 use dashmap::mapref::multiple::RefMulti;
+#[cfg(not(memcrs_verif))]
 use dashmap::{DashMap, ReadOnlyView};
+#[cfg(memcrs_verif)]
+use {crate::verif::TracedMap as DashMap, dashmap::ReadOnlyView};
 use std::sync::atomic::{AtomicU64, Ordering};
 use std::sync::Arc;
 
@@ -43,7 +46,35 @@ impl MemoryStore {
     }
 
     fn get_cas_id(&self) -> u64 {
+        #[cfg(memcrs_verif)]
+        crate::verif::yield_atomic("cas_id.fetch_add");
         self.cas_id.fetch_add(1, Ordering::Release)
+    }
+}
+
+#[cfg(memcrs_verif)]
+impl MemoryStore {
+    /// Physical content: (key, timestamp, cas, flags, ttl, value) per entry.
+    pub fn verif_snapshot(&self) -> Vec<(KeyType, u64, u64, u32, u32, bytes::Bytes)> {
+        let map: &dashmap::DashMap<KeyType, Record> = &self.memory;
+        map.iter()
+            .map(|r| {
+                let h = &r.value().header;
+                (
+                    r.key().clone(),
+                    h.timestamp,
+                    h.cas,
+                    h.flags,
+                    h.time_to_live,
+                    r.value().value.clone(),
+                )
+            })
+            .collect()
+    }
+
+    /// Next value the CAS counter will hand out.
+    pub fn verif_cas_counter(&self) -> u64 {
+        self.cas_id.load(Ordering::SeqCst)
     }
 }
 
